@@ -109,6 +109,14 @@ func C07(c *Ctx) {
 			accS.MultiplyAdd(accS, sy, sz)
 			accK := ref.SAdd(ref.SMul(x.K, y.K), z.K)
 			invS.Invert(accS)
+			// involutions applied in place, twice
+			yS := new(edwards25519.Scalar).Set(sx)
+			yS.Invert(yS)
+			yS.Invert(yS)
+			c.checkScalar(yS, x.K, "Invert applied twice in place", det)
+			yS.Negate(yS)
+			yS.Negate(yS)
+			c.checkScalar(yS, x.K, "Negate applied twice in place", det)
 			ev("in-place-object")
 			c.checkScalar(accS, accK, "object updated in place", det)
 			c.checkScalar(invS, ref.SInv(accK), "Invert of the same object after an in-place update", det)
